@@ -281,6 +281,16 @@ def sec_compute_local(rep):
     aug = [n for n in ast.walk(tree) if isinstance(n, ast.AugAssign) and isinstance(n.target, ast.Subscript)]
     res_loads = [n for n in ast.walk(tree) if isinstance(n, ast.Attribute) and n.attr == "orders" and isinstance(n.ctx, ast.Load)]
     rep.add(ob_eval("C01/compute_local/loop-lemma(result tensors only accumulate by +=)", len(aug) == 2 and all(isinstance(a.op, ast.Add) for a in aug), kind="invariant", detail=f"{len(aug)} augmented assignments on subscripts; {len(res_loads)} loads of .orders"))
+    # ESF.__init__ (real constructor, real configs): the perturbative orders of the point are 0..PTODIS
+    # whatever the evolution order of the card, and the kinematics are stored unchanged
+    rep.under_contract(esfmod.EvaluatedStructureFunction.__init__)
+    for pto in range(4):
+        for pto_evol in range(4):
+            rep.cases += 1
+            cfg0 = H.make_configs(H.Sy(), symbolic=False, pto=pto, pto_evol=pto_evol)
+            e0 = esfmod.EvaluatedStructureFunction({"x": 0.5, "Q2": 10.0}, H.obs_name("F2", "total"), cfg0)
+            ok0 = e0.orders == list(range(pto + 1)) and (e0.x, e0.Q2) == (0.5, 10.0) and e0._computed is False and e0.res.orders == {}
+            rep.add(ob_eval(f"C01/ESF.__init__/post(orders = 0..PTODIS={pto} independent of PTO={pto_evol}; x, Q2 stored; nothing computed)", ok0, detail=f"orders={e0.orders}", inputs={} if ok0 else {"PTODIS": pto, "PTO": pto_evol, "orders": str(e0.orders)}))
     for nk in (1, 2, 3):
         for ng in (1, 2):
             for pto in (0, 1, 3):
@@ -506,15 +516,19 @@ def sec_selfcheck(rep, seed):
 
 
 def run(rep, tier, seed, only=None):
+    from pvc.core import lean_lemmas
+
+    if not only and rep.replay_target is None:
+        rep.add(lean_lemmas("C01", ["plus_prescription_restricted"], tier))
     rep.assume(
         "A-quad: scipy.integrate.quad returns the integral of the integrand it is given over the interval it is given (accuracy / subdivision limits not covered)",
         "A-eko: evaluate_x / log_evaluate_x(u, basis.areas_representation) is the value of that basis function at u; its support is the union of its areas (sorted borders)",
-        "L-plus (textbook, not machine-checked): for C = reg + [sing]_+ + delta_c delta(1-z) with loc(x) = delta_c - int_0^x sing (C03), int_x^1 dz/z C(z) f(x/z) = lim_{eps->0} of the expression proved here",
+        "L-plus: for C = reg + [sing]_+ + delta_c delta(1-z) with loc(x) = delta_c - int_0^x sing (C03), the distribution acting on a test function supported in (x,1] is int_x^1 reg g + int_x^1 sing (g - g(1)) + loc(x) g(1) -- machine-checked by Lean 4 + Mathlib in the thorough tier (lemmas/Lemmas.lean, theorem plus_prescription_restricted); an assumption in the quick tier",
         "loop lemmas by AST (append-only accumulators / cells written once / += accumulation) lift the instantiations at 0..3 elements to every length",
         "the factor x of the left-hand side is the convolution point of the scheme (C09 / sec_convolution_point)",
     )
     rep.stub("scipy.integrate.quad -> recording stub", "eko.interpolation.(log_)evaluate_x and BasisFunction -> uninterpreted p_j(u)", "Combiner / coefficient objects -> abstract kernels (compute_local)", "conv.convolution / convolve_vector replaced by their contracts in their callers")
-    for nm, f in (("quad_kers", sec_quad_kers), ("convolution", sec_convolution), ("vector", sec_convolve_vector), ("compute_local", sec_compute_local), ("drop_empty", sec_drop_empty), ("point", sec_convolution_point)):
+    for nm, f in (("quad_kers", sec_quad_kers), ("convolution", sec_convolution), ("vector", sec_convolve_vector), ("compute_local", sec_compute_local), ("drop_empty", sec_drop_empty), ("point", sec_convolution_point), ("weightsframe", H.weights_frame)):
         if only and only not in nm:
             continue
         rep.add(guarded(f"C01/{nm}", lambda f=f: (f(rep), [])[1]))
